@@ -52,6 +52,32 @@ def c16(out, tier, rng):
                     S.result(key, dig(S.objs[r1]), "C16:same-seed-different-result")
                     S.result(key, dig(S.objs[r2]), "C16:same-seed-different-result")
         ss.append(S)
+    # rare seeds: many seeds on tiny symmetric molecules; the results that look wrong to the driver, and a sample of the others, are logged
+    from tucan.io import graph_from_tucan
+    swept = 0
+    for s in ["H2O/(1-3)(2-3)", "H4/(1-2)(3-4)", "H3N/(1-4)(2-4)(3-4)", "CH4/(1-5)(2-5)(3-5)(4-5)", "Ar3/", "CaCl2/", "H2O2/(1-3)(2-4)(3-4)"]:
+        try:
+            g = graph_from_tucan(s)
+        except Exception:
+            continue
+        S = Session("permsweep-" + s)
+        o = S.input(g)
+        enforce = g.number_of_edges() > 1 and nx.density(g) != 1
+        nseeds = 1500 if tier == "quick" else 9000
+        for j in range(nseeds):
+            sd = j / 8192.0
+            try:
+                res = record.guarded(lambda: record.tgu.permute_molecule(S.objs[o], random_seed=sd), 20)
+            except BaseException:  # noqa
+                S.permute(o, sd)
+                break
+            swept += 1
+            suspicious = (enforce and set(map(frozenset, res.edges)) == set(map(frozenset, S.objs[o].edges))) or list(res.nodes) != sorted(res.nodes) \
+                or res.number_of_nodes() != g.number_of_nodes()
+            if suspicious or j % 300 == 0:
+                S.permute(o, sd)
+        ss.append(S)
+    out.extra["seeds_swept_on_tiny_symmetric_molecules"] = swept
     count_sessions(out, ss, "c16")
     validate_sessions(out, ss, "C16:", rl=0)
     out.extra["rule"] = RULE + "; C16 sessions call permute_molecule with 15 seeds on reader graphs and on canonical graphs, twice per seed with other uses of the global generator in between"
@@ -83,12 +109,25 @@ def c14_workload(rng, tier):
     # disconnected molecules (salts, hydrates): layouts of the writer
     texts.append("\n".join(textgen.render_v3000({"atoms": [dict(sym=s, chg=0, rad=0, mass=0, x="0", y="0", z="0") for s in ("Na", "Cl", "O", "H", "H")],
                                                  "bonds": [(2, 3, 1), (2, 4, 1)]}, rng, opts={"star": False})[0]))
+    def v2(atom_lines, props=()):
+        return "\n".join(["", "  SPEC", "", f"{len(atom_lines):3d}  0  0  0  0  0  0  0  0  0999 V2000"]
+                         + [f"    0.0000    0.0000    0.0000 {s:<3} 0{c:3d}  0  0  0  0  0  0  0  0  0  0" for s, c in atom_lines] + list(props) + ["M  END"])
+    for sym in ("D", "T"):
+        for code in (1, 3, 4, 5, 7):
+            texts.append(v2([(sym, code)]))                       # a charged / radical deuteron or triton
+    for code in (1, 3, 4, 5, 7):
+        texts.append(v2([("C", code), ("H", 0), ("H", 0), ("H", 0)]))
+    texts.append(v2([("D", 0), ("O", 0)], ["M  ISO  1   2  18"]))
+    big = "9" * 4401
+    texts.append("\n".join(["", "  SPEC", "", "  0  0  0     0  0            999 V3000", "M  V30 BEGIN CTAB", "M  V30 COUNTS 1 0 0 0 0", "M  V30 BEGIN ATOM",
+                            "M  V30 1 C 0 0 0 0 MASS=" + big, "M  V30 END ATOM", "M  V30 END CTAB", "M  END"]))
     for i, t in enumerate(texts):
         for op in ("read", "pipeline", "write") + (("writecalc",) if i % 3 == 0 else ()):
             items.append({"key": f"{op}|{hashlib.sha1(t.encode()).hexdigest()[:12]}", "op": op, "arg": t})
     strings = ["CH4/(1-5)(2-5)(3-5)(4-5)", "H2O/(1-3)(2-3)/(2:mass=2)", "CH3/(1-4)(2-4)(3-4)/(4:mass=13,rad=2)", "CH3/(1-4)(2-4)(3-4)/(4:rad=2,mass=13)",
                "C2H6O/(1-7)(2-7)(3-7)(4-8)(5-8)(6-9)(7-8)(8-9)", "He2//(1:mass=3)", "C6H6/(1-7)(2-8)(3-9)(4-10)(5-11)(6-12)(7-8)(7-9)(8-10)(9-11)(10-12)(11-12)",
-               "CH4/(1-5)(2-5)(3-5)(4-6)", "CH4/(1-5", "HC4/", "C2/(1-1)", "H2//(1:mass=2,mass=2)", "Xy/", "ClNa/(1-2)", "/", "C60/" + "".join(f"({i}-{i + 1})" for i in range(1, 60))]
+               "CH4/(1-5)(2-5)(3-5)(4-6)", "CH4/(1-5", "HC4/", "C2/(1-1)", "H2//(1:mass=2,mass=2)", "Xy/", "ClNa/(1-2)", "/", "C60/" + "".join(f"({i}-{i + 1})" for i in range(1, 60)),
+               "C2/(1-" + "9" * 4401 + ")", "C//(1:mass=" + "7" * 4401 + ")", "(", "C2/(1-2))"]
     for s in strings:
         for op in ("parse", "norm", "writeparsed"):
             items.append({"key": f"{op}|{s[:40]}|{hashlib.sha1(s.encode()).hexdigest()[:8]}", "op": op, "arg": s})
@@ -173,8 +212,41 @@ def threaded_results(items, nthreads, rng, shared_objects=True):
     return [seq] + res
 
 
-def scheduled_results(rng, tier):
-    """deterministic one-preemption schedules (line granularity) of two operations on SHARED objects"""
+def model_schedules(out, opsname, graph, n, num, seed):
+    """behaviours of the thread model (TLC -simulate on ThreadsSim), as sequences of thread ids"""
+    cfg = (f"SPECIFICATION SimSpec\nCONSTANTS T = {{1, 2}}\n  OpOf <- {opsname}\n  ScratchOn = \"local\" PartOn = \"copy\" ParserState = \"fresh\"\n"
+           f"  N = {n} AdjC <- Adj{graph} Col <- Col{graph}\nINVARIANT NoCrash\nINVARIANT SameAsSequential\nCONSTRAINT EmitSchedule\nCHECK_DEADLOCK FALSE\n")
+    r = tlc.run("ThreadsSim", cfg, workers=1, simulate=f"num={num}", depth=200, seed=seed, timeout=600)
+    if r.rc != 0:
+        raise tlc.MachineryError("ThreadsSim failed:\n" + r.error_text(1500))
+    out.states += r.distinct
+    out.transitions += r.generated
+    seen, hs = set(), []
+    for p in r.printed:
+        if isinstance(p, dict) and "sched" in p and tuple(p["sched"]) not in seen:
+            seen.add(tuple(p["sched"])); hs.append(p["sched"])
+    return hs
+
+
+def replay_model_schedule(hist, fns, totals):
+    """run the two real operations under the interleaving of one model behaviour: every model step of thread t stands for
+    totals[t] / (number of t's model steps) line events of the real call"""
+    per = {t: max(1, totals[t - 1] // max(1, hist.count(t))) for t in (1, 2)}
+    plan, i = [], 0
+    while i < len(hist):
+        j = i
+        while j < len(hist) and hist[j] == hist[i]:
+            j += 1
+        plan.append((hist[i] - 1, per[hist[i]] * (j - i)))
+        i = j
+    if plan:
+        plan[-1] = (plan[-1][0], None)
+    return sched.Sched(plan).run(fns)[0]
+
+
+def scheduled_results(rng, tier, outcome=None):
+    """deterministic schedules of two operations on SHARED objects: all one-preemption schedules at line granularity, and the
+    interleavings TLC generates from the thread model"""
     from tucan.io import graph_from_tucan
     from tucan.canonicalization import canonicalize_molecule
     from tucan.serialization import serialize_molecule
@@ -200,6 +272,18 @@ def scheduled_results(rng, tier):
                     out.append({"key": f"sched|{s}|{name}", "val": val, "sched": [a, b, kpt]})
             for name in (a, b):
                 out.append({"key": f"sched|{s}|{name}", "val": seq[name], "sched": "sequential"})
+        # spec -> code: interleavings generated by TLC from the thread model
+        model = {"H2O/(1-3)(2-3)": ("Water", 3), "CH4O/(1-5)(2-5)(3-5)(4-6)(5-6)": ("Methanol", 6)}.get(s)
+        if model and outcome is not None:
+            for opsname, (a, b) in (("Ops2", ("ser", "ser")), ("OpsSerCanon", ("ser", "canon")), ("OpsCanon2", ("canon", "canon"))):
+                hists = model_schedules(outcome, opsname, model[0], model[1], 40 if tier == "quick" else 400, rng.randrange(10**6))
+                totals = [sched.Sched([(0, None)]).run([ops[x]])[1].get(0, 1) for x in (a, b)]
+                for h in hists[: (12 if tier == "quick" else 150)]:
+                    res = replay_model_schedule(h, [ops[a], ops[b]], totals)
+                    for name, r in zip((a, b), res):
+                        val = r[1] if r[0] == "ok" else "EXC:" + r[1]
+                        out.append({"key": f"sched|{s}|{name}", "val": val, "sched": ["tlc", opsname, h]})
+                outcome.extra["tlc_generated_schedules_replayed"] = outcome.extra.get("tlc_generated_schedules_replayed", 0) + min(len(hists), 12 if tier == "quick" else 150)
     return out
 
 
@@ -217,7 +301,7 @@ def c14(out, tier, rng):
     configs = [(hs, rng.randrange(10**6)) for hs in ([0, 1, 2, 3, 4, 5, 6, 7] if tier == "quick" else list(range(0, 32)))]
     runs = run_workers(items, configs)
     runs += threaded_results(items, 4 if tier == "quick" else 8, rng)
-    sched_res = scheduled_results(rng, tier)
+    sched_res = scheduled_results(rng, tier, out)
     # one registry session per key group
     groups = {}
     for ri, run in enumerate(runs):
@@ -282,8 +366,12 @@ def families(n, rng):
         return s + "".join(f"({min(a, b)}-{max(a, b)})" for a, b in t)
     def complete(k):
         return f"C{k}/" + "".join(f"({i}-{j})" for i in range(1, k + 1) for j in range(i + 1, k + 1))
+    if n >= 100:
+        kn = min(n, 300)
+    else:
+        kn = min(n, 40)
     return {"chain": chain(n), "ring": ring(n), "comb": comb(n // 2), "ladder": ladder(n // 2), "star": star(n), "isolated": isolated(n),
-            "waters": waters(n // 3), "ions": ions(n // 2), "peptide": peptide(n // 4), "complete": complete(min(n, 40))}
+            "waters": waters(n // 3), "ions": ions(n // 2), "peptide": peptide(n // 4), "complete": complete(kn)}
 
 
 def run_pipeline_depth(s, limit=None):
@@ -349,6 +437,16 @@ def c15(out, tier, rng):
                 if t:
                     T.parse(t, of=c)
         ss.append(T)
+    for name, g in drivers.special_molecules() + [(f"lab{i}", gen.random_molecule(rng, 9, label_p=0.5)) for i in range(40 if tier == "quick" else 400)]:
+        T = Session("c15-" + name)
+        o = T.input(g)
+        for x in [o] + [T.derive(o, record.relabel(T.objs[o], p, rng), p) for p in [gen.random_perm(rng, g.number_of_nodes())]]:
+            c = T.canon(x)
+            if c:
+                t = T.ser(c)
+                if t:
+                    T.parse(t, of=c)
+        ss.append(T)
     # (2) growth probe: does the depth of the interpreter's stack grow with the size of the molecule?
     probe = {}
     n1, n2 = (120, 360) if tier == "quick" else (200, 800)
@@ -374,9 +472,9 @@ def c15(out, tier, rng):
                 S.ev.append({"op": "completed", "call": "pipeline", "family": name, "n": need})
     out.extra["stack_depth_probe"] = probe
     # (3) real sizes
-    real = [("chain", 700), ("ring", 1500), ("waters", 1500), ("isolated", 1500), ("ions", 1200), ("comb", 500), ("complete", 40)] if tier == "quick" else \
+    real = [("chain", 700), ("ring", 1500), ("waters", 1500), ("isolated", 1500), ("ions", 1200), ("comb", 500), ("complete", 270), ("star", 700)] if tier == "quick" else \
            [("chain", 2200), ("chain", 4000), ("ring", 2400), ("ring", 5000), ("comb", 2200), ("ladder", 2000), ("peptide", 2400), ("star", 3000),
-            ("waters", 4500), ("isolated", 5000), ("ions", 4000), ("complete", 60)]
+            ("waters", 4500), ("isolated", 5000), ("ions", 4000), ("complete", 300)]
     for name, n in real:
         t0 = time.time()
         o, d = run_pipeline_depth(families(n, rng)[name])
